@@ -30,6 +30,16 @@ Decided:
          path condition, taken as a formula, entails ``not <result>.is_streamed`` (c15_paths);
   R15.g  an exception of the middleware's own (explicit raise, ``request.args[k]``-style lookups) is dominated by its
          trigger: a test on the request whose other side is a pure pass-through and under which its changes sit (c15_paths).
+  R15.h  a render hook (parameter ``context``) fills only keys the endpoint left unset: each ``context[k] = v`` sits where the path
+         condition, with the middleware's own switches at their constructor defaults, entails ``k not in context`` (c15_paths).
+  R15.i  parse sites fed with request data (base64 / codec decoding, loads, int / float, configured type callables), in the hook or
+         in the tree / pinned-library functions it calls (receiver classes from self / cls / super() / class attributes), are caught
+         on the way up (c15_parse).
+Also under R15.b: no other binding of a returned name reaches the return (the object returned *is* the next() result); no path calls
+next() twice; nothing is stored into the request; the attributes / headers describing the body (type, charset, encoding, length) count
+as body mutators; the trigger a modification sits under must not come out on the modifying side for a request that carries nothing
+(abstract evaluation: every request lookup empty).  Under R15.c: a ``finally`` around next() is not left by return / break / continue, no
+``suppress`` around next().  Under R15.d: Content-Encoding / Content-Length are written only on paths that replace the body.
 Each middleware function and the gzip group run in isolation: a gap or internal error in one is reported as
 ANALYSIS-ERROR without hiding the violations of the others.
 Declined: losslessness of compression / equality of decoded bodies (values).
@@ -44,8 +54,11 @@ from ..cfg import expand_conds
 from .common import (cfg_of, fkey, conds, has_cond, cond_texts, stmts_of, walk_body, call_tail, call_name,
                      returns_of, handler_reraises_always, stmt_of, names_loaded, isinstance_test)
 
-BODY_ATTRS = {'response', 'data', 'status', 'status_code'}
-BODY_CALLS = {'set_data'}
+# what the client receives and how it decodes it: status, body, and the attributes describing the body
+BODY_ATTRS = {'response', 'data', 'status', 'status_code',
+              'charset', 'mimetype', 'mimetype_params', 'content_type', 'content_encoding', 'content_length', 'headers', 'direct_passthrough'}
+BODY_CALLS = {'set_data', 'freeze', 'make_sequence', 'close'}
+REQUEST_CONTAINERS = {'args', 'form', 'values', 'files', 'cookies', 'headers'}
 
 
 def middleware_functions(repo):
@@ -96,7 +109,8 @@ def run(rep):
     repo = rep.repo
     rep.decide('R15.a attribute protocol on next() results; R15.b pass-through / guarded body mutation; '
                'R15.c handlers re-raise; R15.d gzip bookkeeping; R15.e nullable header attributes are tested before use; '
-               'R15.f body-as-sequence operations only where not streamed is entailed; R15.g own exceptions only under the trigger')
+               'R15.f body-as-sequence operations only where not streamed is entailed; R15.g own exceptions only under the trigger; '
+               'R15.h render hooks fill only unset context keys (default configuration); R15.i parsing of request data is exception-contained')
     rep.decline('losslessness of gzip, equality of decoded bodies (values)')
     rep.assume('werkzeug 1.0.1 class layout as parsed from site-packages/werkzeug/wrappers')
     rep.assume('HTTPException(BaseResponse, Exception) instances flow through request middlewares (null route, raised/returned errors)')
@@ -152,7 +166,14 @@ def run(rep):
         if seq_attrs:
             _guarded(rep, c15_paths.check_body_reads, rep, 'R15.f', fi, seq_attrs, nd)
         _guarded(rep, c15_paths.check_own_exceptions, rep, 'R15.g', fi, nd, BODY_ATTRS, BODY_CALLS)
-    for rule, n in (('R15.a', 9), ('R15.b', 9), ('R15.c', 3), ('R15.d', 8), ('R15.f', 6), ('R15.g', 6)):
+    rep.rule('R15.i', 'what a middleware decodes out of the request cannot escape as an exception (parse sites on request data are caught on the way up)')
+    from . import c15_parse
+    _guarded(rep, c15_parse.check_parsing_contained, rep, 'R15.i', funcs)
+    rep.rule('R15.h', 'a render hook, in the default configuration, fills only context keys the endpoint left unset and removes none')
+    for fi in sorted(funcs, key=lambda f: f.key):
+        _guarded(rep, c15_paths.check_render_context, rep, 'R15.h', fi)
+    rep.guard(rep.floor, 'R15.h', 1)
+    for rule, n in (('R15.a', 9), ('R15.b', 9), ('R15.c', 4), ('R15.d', 9), ('R15.f', 6), ('R15.g', 6)):
         rep.guard(rep.floor, rule, n)
 
 
@@ -226,15 +247,75 @@ def _one_middleware(rep, repo, fi, flow_names, resp_attrs):
               'all %d returns yield the next() value' % len(rets) if not badret and not falls else
               'returns something other than the value of next(): %s' %
               ('; '.join(short(r) for r in badret) or 'falls off the end (None)'), mod, (badret or [fi.node])[0])
-    # --- R15.b body / status mutators
-    muts = []
+    # --- R15.b the object returned is the one next() returned: no other binding of the returned name reaches the return
+    binders = {}
+    for s_ in stmts_of(fi.node):
+        for n in diffcon._header_nodes(s_):
+            if isinstance(n, ast.Name) and isinstance(n.ctx, (ast.Store, ast.Del)) and n.id in nd:
+                binders.setdefault(n.id, []).append(s_)
+    foreign = []
+    for r in rets:
+        if not (isinstance(r.value, ast.Name) and r.value.id in nd):
+            continue
+        name = r.value.id
+        all_nodes = set(cfg.nodes_of_all(binders.get(name, [])))
+        for b in binders.get(name, []):
+            own = isinstance(b, ast.Assign) and (is_next_call(b.value) or (isinstance(b.value, ast.Name) and b.value.id in nd)) and \
+                all(isinstance(t, ast.Name) for t in b.targets)
+            if own:
+                continue
+            after = [m for x in cfg.nodes_of(b) for m in cfg.succ[x]]
+            if set(cfg.nodes_of(r)) & cfg.reach(after, avoid=all_nodes - set(cfg.nodes_of(r))):
+                foreign.append((b, r))
+    rep.check('R15.b', fkey(fi, 'returned object'), not foreign,
+              'whatever is returned under a name is the object next() returned (no other binding of the name reaches a return)' if not foreign else
+              '%s re-binds the name holding the next() result and that value reaches %s: what is returned is not the object next() returned'
+              % (short(foreign[0][0]), short(foreign[0][1])), mod, foreign[0][0] if foreign else fi.node)
+    # --- R15.b the rest of the chain runs once: no path runs next() a second time
+    next_sts = []
     for n in walk_body(fi.node):
-        if isinstance(n, ast.Attribute) and isinstance(n.ctx, ast.Store) and isinstance(n.value, ast.Name) \
-                and n.value.id in nd and n.attr in BODY_ATTRS:
-            muts.append(n)
-        if isinstance(n, ast.Call) and isinstance(n.func, ast.Attribute) and n.func.attr in BODY_CALLS \
-                and isinstance(n.func.value, ast.Name) and n.func.value.id in nd:
-            muts.append(n)
+        if isinstance(n, ast.Call) and is_next_call(n):
+            s_ = stmt_of(mod, n)
+            if s_ is not None:
+                next_sts.append(s_)
+    twice = [s_ for s_ in next_sts if next_sts.count(s_) > 1]
+    for s_ in next_sts:
+        after = [m for x in cfg.nodes_of(s_) for m in cfg.succ[x]]
+        if set(cfg.nodes_of_all(next_sts)) & cfg.reach(after):
+            twice.append(s_)
+    if next_sts:
+        rep.check('R15.b', fkey(fi, 'next() once'), not twice,
+                  'no path calls next() a second time (%d call site(s))' % len(set(id(x) for x in next_sts)) if not twice else
+                  'next() can run more than once for one request (%s can be followed by another next() call): the endpoint and the inner '
+                  'middlewares run twice, the client gets the second answer' % short(twice[0]), mod, twice[0] if twice else fi.node)
+    # --- R15.b what the hook itself was given (request, context ..) is not replaced for the rest of the chain: next() gets no keyword
+    #     naming one of the hook's own parameters
+    own_params = set(fi.params()) - {'self', 'cls', 'next'}
+    swapped = [k for n in walk_body(fi.node) if isinstance(n, ast.Call) and isinstance(n.func, ast.Name) and n.func.id == 'next'
+               for k in n.keywords if k.arg in own_params and norm(k.value) != k.arg]
+    if next_sts:
+        rep.check('R15.b', fkey(fi, 'next() arguments'), not swapped,
+                  'next() is not given a replacement for anything the hook itself received' if not swapped else
+                  'next(%s=%s) replaces the %s the framework supplied for the rest of the chain: the endpoint / renderer works on something else '
+                  'than the application produced' % (swapped[0].arg, short(swapped[0].value), swapped[0].arg), mod, swapped[0].value if swapped else fi.node)
+    # --- R15.b the request is handed on as it came: nothing is stored into it
+    from .. import effects
+    req_writes = []
+    for e in effects.effects_in(fi.node):
+        tgt = e.target
+        st_ = stmt_of(mod, e.node)
+        r_ = loc.resolve(tgt, st_) if st_ is not None and cfg.nodes_of(st_) else tgt
+        ch = effects.chain_of(r_)
+        if ch and ch[0] == 'request' and 'request' in fi.params():
+            req_writes.append(e)
+    if 'request' in fi.params():
+        rep.check('R15.b', fkey(fi, 'request untouched'), not req_writes,
+                  'nothing is stored into the request object' if not req_writes else
+                  'the request is modified before / while the rest of the chain runs (%s): the application answers a request the client did not send'
+                  % short(req_writes[0].node), mod, req_writes[0].node if req_writes else fi.node)
+    # --- R15.b body / status mutators
+    from . import c15_paths
+    muts = c15_paths.body_mutators(fi, nd, BODY_ATTRS, BODY_CALLS, loc, repo)
     mut_stmts = [stmt_of(mod, mu) for mu in muts]
     mut_nodes = set(cfg.nodes_of_all(mut_stmts))
     for mu, mst in zip(muts, mut_stmts):
@@ -250,10 +331,24 @@ def _one_middleware(rep, repo, fi, flow_names, resp_attrs):
             if cfg.exit in cfg.reach(other, avoid=mut_nodes, normal_only=True):
                 req_tests.append((t, p))
         ok = bool(req_tests)
-        rep.check('R15.b', fkey(fi, 'mutates ' + norm(mu.func if isinstance(mu, ast.Call) else mu)), ok,
+        # ... and a request that carries nothing (no parameter, no header) is on the pass-through side of it: evaluated over
+        # "every lookup on the request comes back empty", a trigger must not come out on the modifying side
+        inverted = []
+        for t, p in req_tests:
+            ts = stmt_of(mod, t)
+            rt = loc.resolve(t, ts) if ts is not None and cfg.nodes_of(ts) else t
+            if _absent_truth(repo, mod, rt) is p:
+                inverted.append((t, p))
+        if ok and len(inverted) == len(req_tests):
+            rep.check('R15.b', fkey(fi, 'mutates ' + c15_paths.mutator_text(mu)), False,
+                      'the test the modification sits under (%s) comes out on the modifying side for a request that carries nothing (absent parameter / header): '
+                      'the trigger is inverted -- requests that did not ask for this middleware get a modified response, those that did pass through'
+                      % '; '.join(cond_texts(inverted)), mod, mu)
+            continue
+        rep.check('R15.b', fkey(fi, 'mutates ' + c15_paths.mutator_text(mu)), ok,
                   'body/status mutation happens only under a test on the request: %s' % '; '.join(cond_texts(req_tests)) if ok else
-                  'body/status of the next() result is modified without any dominating test on the request that lets other '
-                  'requests pass through untouched (every response would change)', mod, mu)
+                  'status, body or the description of the body (type / encoding / length) of the next() result is modified without any dominating '
+                  'test on the request that lets other requests pass through untouched (every response would change)', mod, mu)
     # --- R15.b request body untouched: parsing the form consumes wsgi.input, so the endpoint would no longer
     #     see the raw body (table entry: PostDataMiddleware exists to read the form)
     BODY_READERS = {'form', 'values', 'files', 'stream', 'data', 'json', 'get_data', 'get_json', 'input_stream'}
@@ -268,11 +363,28 @@ def _one_middleware(rep, repo, fi, flow_names, resp_attrs):
                   reads[0] if reads else fi.node)
     # --- R15.c
     for st in stmts_of(fi.node):
+        if isinstance(st, (ast.With, ast.AsyncWith)) and any(isinstance(c, ast.Call) and is_next_call(c) for b in st.body for c in ast.walk(b)):
+            # a context manager around next() may swallow what next() raises (its __exit__ returning true)
+            for it in st.items:
+                ce = loc.resolve(it.context_expr, st) if cfg.nodes_of(st) else it.context_expr
+                if isinstance(ce, ast.Call) and call_tail(ce) == 'suppress':
+                    rep.check('R15.c', fkey(fi, 'with ' + short(it.context_expr)), False,
+                              'next() runs inside %s: the exception is swallowed and the middleware goes on without a response' % short(ce), mod, st)
+                else:
+                    raise AnalysisError('%s: next() runs inside ``with %s``; cannot tell whether that context manager passes exceptions on'
+                                        % (fi.key, short(it.context_expr)))
         if not isinstance(st, ast.Try):
             continue
-        body_calls = [c for b in st.body for c in ast.walk(b) if isinstance(c, ast.Call) and is_next_call(c)]
+        body_calls = [c for b in st.body + st.orelse for c in ast.walk(b) if isinstance(c, ast.Call) and is_next_call(c)]
         if not body_calls:
             continue
+        if st.finalbody:
+            # leaving a ``finally`` block by return / break / continue discards the exception in flight
+            esc = _escapes(st.finalbody)
+            rep.check('R15.c', fkey(fi, 'finally'), not esc,
+                      'the finally block around next() ends by falling through (the exception in flight goes on)' if not esc else
+                      'the finally block around next() is left by ``%s``: an exception raised by next() is discarded there and the middleware '
+                      'answers as if nothing had happened' % short(esc[0]), mod, esc[0] if esc else st)
         for h in st.handlers:
             ok = handler_reraises_always(fi, h)
             how = 're-raises on every path'
@@ -299,6 +411,94 @@ def _one_middleware(rep, repo, fi, flow_names, resp_attrs):
                       'handler around next() can swallow the exception (does not re-raise on every path)', mod, h)
 
 
+def _escapes(stmts, in_loop=False):
+    """return / break / continue statements that leave this statement list (break / continue of loops inside it stay inside)"""
+    out = []
+    for s_ in stmts:
+        if isinstance(s_, ast.Return) or (isinstance(s_, (ast.Break, ast.Continue)) and not in_loop):
+            out.append(s_)
+        elif isinstance(s_, (ast.FunctionDef, ast.AsyncFunctionDef, ast.ClassDef)):
+            continue
+        elif isinstance(s_, (ast.For, ast.AsyncFor, ast.While)):
+            out.extend(_escapes(s_.body, True))
+            out.extend(_escapes(s_.orelse, in_loop))
+        else:
+            for fld in ('body', 'orelse', 'finalbody'):
+                out.extend(_escapes(getattr(s_, fld, None) or [], in_loop))
+            for h in getattr(s_, 'handlers', None) or []:
+                out.extend(_escapes(h.body, in_loop))
+    return out
+
+
+def _absent_value(repo, mod, e):
+    """('v', value) of ``e`` for a request that carries nothing -- every lookup in request.args / form / cookies / headers .. finds
+    nothing, every Accept-* quality is 0 -- or None when that is not known.  Constants fold; nothing else is evaluated."""
+    if isinstance(e, ast.Call) and isinstance(e.func, ast.Attribute) and _request_container(e.func.value):
+        if e.func.attr == 'get' and e.args and not any(isinstance(a, ast.Starred) for a in e.args):
+            if len(e.args) == 1 and not e.keywords:
+                return ('v', None)
+            d = e.args[1] if len(e.args) > 1 else [k.value for k in e.keywords if k.arg == 'default'][0] if any(k.arg == 'default' for k in e.keywords) else None
+            if d is None:
+                return ('v', None)
+            return _absent_value(repo, mod, d)
+        if e.func.attr == 'getlist':
+            return ('v', [])
+        if e.func.attr in ('quality', 'find', 'best_match') and 'accept' in norm(e.func.value):
+            return ('v', 0)
+        return None
+    if isinstance(e, ast.Subscript) and isinstance(e.value, ast.Attribute) and isinstance(e.value.value, ast.Name) and e.value.value.id == 'request' \
+            and e.value.attr.startswith('accept_'):
+        return ('v', 0)
+    if _request_container(e):
+        return ('v', {})
+    if isinstance(e, ast.BoolOp):
+        last = None
+        for v in e.values:
+            last = _absent_value(repo, mod, v)
+            if last is None:
+                return None
+            if bool(last[1]) is isinstance(e.op, ast.Or):
+                return last
+        return last
+    try:
+        v = repo.fold(e, mod)
+    except Exception:
+        return None
+    return ('v', v) if isinstance(v, (str, bytes, int, float, bool, tuple, type(None))) else None
+
+
+def _request_container(e):
+    return isinstance(e, ast.Attribute) and isinstance(e.value, ast.Name) and e.value.id == 'request' and e.attr in REQUEST_CONTAINERS
+
+
+def _absent_truth(repo, mod, t):
+    """truth value of test ``t`` for a request that carries nothing (see _absent_value): True / False / None (not known)"""
+    if isinstance(t, ast.UnaryOp) and isinstance(t.op, ast.Not):
+        v = _absent_truth(repo, mod, t.operand)
+        return None if v is None else not v
+    if isinstance(t, ast.BoolOp):
+        vs = [_absent_truth(repo, mod, v) for v in t.values]
+        if isinstance(t.op, ast.And):
+            return False if any(v is False for v in vs) else (None if any(v is None for v in vs) else True)
+        return True if any(v is True for v in vs) else (None if any(v is None for v in vs) else False)
+    if isinstance(t, ast.Compare) and len(t.ops) == 1:
+        op, a, b = t.ops[0], t.left, t.comparators[0]
+        if isinstance(op, (ast.In, ast.NotIn)):
+            if _request_container(b) or (isinstance(b, ast.Attribute) and isinstance(b.value, ast.Name) and b.value.id == 'request' and b.attr.startswith('accept_')):
+                return isinstance(op, ast.NotIn)
+            return None
+        va, vb = _absent_value(repo, mod, a), _absent_value(repo, mod, b)
+        if va is None or vb is None:
+            return None
+        if isinstance(op, (ast.Eq, ast.NotEq)):
+            return (va[1] == vb[1]) is isinstance(op, ast.Eq)
+        if isinstance(op, (ast.Is, ast.IsNot)) and (va[1] is None or vb[1] is None):
+            return (va[1] is vb[1]) is isinstance(op, ast.Is)
+        return None
+    v = _absent_value(repo, mod, t)
+    return None if v is None else bool(v[1])
+
+
 def _gzip_bookkeeping(rep, repo, base):
     rep.rule('R15.d', 'gzip replaces body, Content-Length and Content-Encoding together; Vary before the Accept-Encoding test')
     gz = repo.mod('clastic.middleware.compress').func('GzipMiddleware.request')
@@ -310,6 +510,13 @@ def _gzip_bookkeeping(rep, repo, base):
         if isinstance(s, ast.Assign) and len(s.targets) == 1 and isinstance(s.targets[0], ast.Attribute) \
                 and isinstance(s.targets[0].value, ast.Name) and s.targets[0].value.id in nd:
             stores.setdefault(s.targets[0].attr, []).append(s)
+    # (the header spelling of the two descriptors: ``resp.headers['Content-Encoding'] = v`` is what ``resp.content_encoding = v`` does)
+    from . import c15_paths as _paths
+    for s in stmts_of(gz.node):
+        if isinstance(s, ast.Assign) and len(s.targets) == 1 and isinstance(s.targets[0], ast.Subscript) and _paths._headers_of(s.targets[0].value, nd, L, s):
+            k = repo.try_fold(s.targets[0].slice, gz.mod)
+            if isinstance(k, str) and k.lower() in ('content-encoding', 'content-length'):
+                stores.setdefault(k.lower().replace('-', '_'), []).append(s)
     # where the body is replaced: ``resp.response = [value]``, or through the public API ``resp.set_data(value)`` /
     # ``resp.data = value`` (BaseResponse.set_data stores [value] and -- checked below in the pinned source -- the
     # Content-Length of it)
@@ -344,6 +551,8 @@ def _gzip_bookkeeping(rep, repo, base):
                 # follow the named temporaries of the stored value to the ``len(X)`` that computes it; X must denote the value stored as body
                 cur_e, cur_s = st_.value, st_
                 for _ in range(6):
+                    if isinstance(cur_e, ast.Call) and call_name(cur_e) == 'str' and len(cur_e.args) == 1 and not cur_e.keywords:
+                        cur_e = cur_e.args[0]       # (a header value is the text of the number)
                     if not isinstance(cur_e, ast.Name):
                         break
                     b = L.binding(cur_e.id, cur_s)
@@ -360,6 +569,29 @@ def _gzip_bookkeeping(rep, repo, base):
         rep.check('R15.d', fkey(gz, 'resp.%s' % attr), ok, detail if ok else
                   'replacing the body is not always accompanied by a matching %s assignment' % attr, gz.mod,
                   sts[0] if sts else body_st)
+    # ... and the other way round: Content-Encoding / Content-Length are (re)written only on paths that do replace the body -- a
+    # header announcing gzip (or the compressed length) in front of the original body makes the client decode garbage / truncate
+    from . import c15_paths
+    describers = list(stores.get('content_length', [])) + list(stores.get('content_encoding', []))
+    for s in stmts_of(gz.node):
+        tg = s.targets if isinstance(s, (ast.Assign, ast.Delete)) else [s.target] if isinstance(s, (ast.AugAssign, ast.AnnAssign)) else []
+        for t in tg:
+            if isinstance(t, ast.Subscript) and c15_paths._headers_of(t.value, nd, L, s) and not any(s is d for d in describers):
+                k = repo.try_fold(t.slice, gz.mod)
+                if isinstance(k, str) and k.lower() in ('content-encoding', 'content-length'):
+                    describers.append(s)
+        if isinstance(s, ast.Expr) and isinstance(s.value, ast.Call) and isinstance(s.value.func, ast.Attribute) and s.value.args and \
+                s.value.func.attr in c15_paths.HEADER_KEY_WRITERS and c15_paths._headers_of(s.value.func.value, nd, L, s):
+            k = repo.try_fold(s.value.args[0], gz.mod)
+            if isinstance(k, str) and k.lower() in ('content-encoding', 'content-length'):
+                describers.append(s)
+    body_nodes = cfg.nodes_of(body_st)
+    loose = [s for s in describers if not (cfg.must_pass(body_nodes, cfg.nodes_of(s), [cfg.exit], normal_only=True) or
+                                           cfg.must_pass(body_nodes, cfg.entry, cfg.nodes_of(s)))]
+    rep.check('R15.d', fkey(gz, 'headers describe a replaced body only'), bool(describers) and not loose,
+              'Content-Encoding / Content-Length are written only on paths that replace the body (%d stores)' % len(describers) if describers and not loose else
+              '%s runs on a path that leaves the body as it was: the response announces an encoding / length that is not the one of the bytes sent'
+              % short((loose or [body_st])[0]), gz.mod, (loose or [body_st])[0])
     # compressed value provenance
     data_of = lambda e: (isinstance(e, ast.Attribute) and e.attr == 'data' and isinstance(e.value, ast.Name) and e.value.id in nd) or \
         (isinstance(e, ast.Call) and isinstance(e.func, ast.Attribute) and e.func.attr == 'get_data' and not e.args and not e.keywords
